@@ -35,7 +35,7 @@ type chain struct {
 	receipts map[common.Hash]*types.Receipt
 	nonce    uint64
 	keyper   common.Address
-	activity func()
+	activity func(what string)
 	gate     func(kind string, to common.Address, key []byte, keyperIdx uint64, senderOK bool) error
 
 	mgrABI, setABI, pubABI *abi.ABI
@@ -85,9 +85,9 @@ func (c *chain) Reset() {
 	c.nonce = 0
 }
 
-func (c *chain) touch() {
+func (c *chain) touch(what string) {
 	if f := c.activity; f != nil {
-		f()
+		f(what)
 	}
 }
 
@@ -96,23 +96,23 @@ func (c *chain) PublisherOf(idx uint64) common.Address { return derivedAddr("pub
 type chainAPI struct{ c *chain }
 
 func (a *chainAPI) ChainId(context.Context) (*hexutil.Big, error) {
-	a.c.touch()
+	a.c.touch("ChainId")
 	return (*hexutil.Big)(a.c.chainID), nil
 }
 
 func (a *chainAPI) GasPrice(context.Context) (*hexutil.Big, error) {
-	a.c.touch()
+	a.c.touch("GasPrice")
 	return (*hexutil.Big)(big.NewInt(1_000_000_000)), nil
 }
 
 func (a *chainAPI) GetBlockByNumber(_ context.Context, _ rpc.BlockNumber, _ bool) (*types.Header, error) {
-	a.c.touch()
+	a.c.touch("GetBlockByNumber")
 	// no base fee: bind.transact takes the legacy gas price path
 	return &types.Header{Number: big.NewInt(1), Difficulty: big.NewInt(0), GasLimit: 30_000_000, Time: 1_700_000_000}, nil
 }
 
 func (a *chainAPI) GetCode(_ context.Context, addr common.Address, _ rpc.BlockNumberOrHash) (hexutil.Bytes, error) {
-	a.c.touch()
+	a.c.touch("GetCode")
 	c := a.c
 	if _, ok := c.sets[addr]; ok || addr == c.mgr {
 		return hexutil.Bytes{0x60}, nil
@@ -124,7 +124,7 @@ func (a *chainAPI) GetCode(_ context.Context, addr common.Address, _ rpc.BlockNu
 }
 
 func (a *chainAPI) GetTransactionCount(_ context.Context, _ common.Address, _ rpc.BlockNumberOrHash) (hexutil.Uint64, error) {
-	a.c.touch()
+	a.c.touch("GetTransactionCount")
 	a.c.mu.Lock()
 	defer a.c.mu.Unlock()
 	return hexutil.Uint64(a.c.nonce), nil
@@ -148,12 +148,12 @@ func (m callArg) data() []byte {
 }
 
 func (a *chainAPI) EstimateGas(_ context.Context, _ callArg, _ *rpc.BlockNumberOrHash) (hexutil.Uint64, error) {
-	a.c.touch()
+	a.c.touch("EstimateGas")
 	return 120_000, nil
 }
 
 func (a *chainAPI) Call(_ context.Context, m callArg, _ rpc.BlockNumberOrHash) (hexutil.Bytes, error) {
-	a.c.touch()
+	a.c.touch("Call")
 	c := a.c
 	data := m.data()
 	if m.To == nil || len(data) < 4 {
@@ -211,7 +211,7 @@ func (a *chainAPI) Call(_ context.Context, m callArg, _ rpc.BlockNumberOrHash) (
 }
 
 func (a *chainAPI) SendRawTransaction(_ context.Context, raw hexutil.Bytes) (common.Hash, error) {
-	a.c.touch()
+	a.c.touch("SendRawTransaction")
 	c := a.c
 	tx := new(types.Transaction)
 	if err := tx.UnmarshalBinary(raw); err != nil {
@@ -248,7 +248,7 @@ func (a *chainAPI) SendRawTransaction(_ context.Context, raw hexutil.Bytes) (com
 }
 
 func (a *chainAPI) GetTransactionReceipt(_ context.Context, h common.Hash) (*types.Receipt, error) {
-	a.c.touch()
+	a.c.touch("GetTransactionReceipt")
 	a.c.mu.Lock()
 	defer a.c.mu.Unlock()
 	return a.c.receipts[h], nil
